@@ -49,6 +49,10 @@ FRAGS = ["", "f", "a b", "a%20b", None, "#"]
 SCHEMES = ["http", "https", "HTTP", "foo", "ws", ""]
 TEXTS = ["x", "a b", "a%20b", "a/b", "..", ".", "", "é", "%", "a?b#c", "x.y", ".z"]
 SIZES = [0, 1, 2, 8, None, 256, 512]
+# numerically equal query values of different kinds: any memo keyed by value (==/hash) would confuse them
+_NUMS = [{"t": "int", "v": "7"}, {"t": "float", "v": "7.0"}, {"t": "intsub", "v": "7"}, {"t": "floatsub", "v": "7.0"}, {"t": "float", "v": "0.0"}, {"t": "float", "v": "-0.0"},
+         {"t": "intsub", "v": "0"}, {"t": "int", "v": "1"}, {"t": "float", "v": "1.0"}, {"t": "float", "v": "1e16"}, {"t": "int", "v": "10000000000000000"}]
+NUMERIC_QUERIES = [{"t": "dict", "v": [["n", v]]} for v in _NUMS] + [{"t": "list", "v": [{"t": "tuple", "v": ["n", v]}]} for v in _NUMS]
 
 
 def plan(tier, seed):
@@ -135,15 +139,17 @@ class Monitor:
 def clear_everything():
     """Clear every object in the yarl modules that has cache_clear and restore
     the default cache configuration."""
+    import sys
+
     import yarl
-    import yarl._parse
-    import yarl._url
 
     n = 0
     with warnings.catch_warnings():
         warnings.simplefilter("ignore")
         yarl.cache_configure()
-    for mod in (yarl._url, yarl._parse):
+    for mname, mod in list(sys.modules.items()):
+        if mod is None or not (mname == "yarl" or mname.startswith("yarl.")):
+            continue
         for name, obj in list(vars(mod).items()):
             cc = getattr(obj, "cache_clear", None)
             if callable(cc) and not isinstance(obj, type):
@@ -255,7 +261,7 @@ class Program:
                 args = [r.choice(PATHS)]
             elif m in ("with_query", "extend_query", "update_query"):
                 args = [r.choice([None, "", "a=1", "a=2&b", {"t": "dict", "v": [["a", "x y"]]}, {"t": "dict", "v": []}, {"t": "list", "v": [{"t": "tuple", "v": ["b", "1"]}]},
-                                  {"t": "mdict", "v": [["a", "1"], ["a", "2"]]}, {"t": "dict", "v": [["k", {"t": "list", "v": ["1", "2"]}]]}])]
+                                  {"t": "mdict", "v": [["a", "1"], ["a", "2"]]}, {"t": "dict", "v": [["k", {"t": "list", "v": ["1", "2"]}]]}] + NUMERIC_QUERIES)]
             elif m == "without_query_params":
                 args = [r.choice(["a", "b", "zz"])]
             elif m == "with_fragment":
@@ -470,6 +476,7 @@ def run(ctx):
         cold_replay(ctx, -1, log)
         return
     nprog = ctx.params["programs"]
+    all_logs = []
     for p in range(nprog):
         pid = ctx.shard * 100000 + p
         rng = random.Random(f"C08/{ctx.seed}/{pid}")
@@ -487,10 +494,67 @@ def run(ctx):
                 ctx.count("lru_evictions_observed")
                 break
         cold_replay(ctx, pid, log)
+        all_logs.append((pid, [(st, b, w, org) for (st, b, w, cfg, org) in log]))
         if p % 40 == 0:
             ctx.sample({"program": pid, "steps": [l[0] for l in log[:6]], "outcomes": [l[2] for l in log[:6]]})
     ctx.count("slot_writes_unpublished", mon.writes_unpublished)
     ctx.notes["configs_seen"] = 1
+    fresh_process_replay(ctx, all_logs)
+
+
+def fresh_process_replay(ctx, all_logs):
+    """Second offline checker: a FRESH interpreter replays every logged call in REVERSE order (last program first,
+    last step first).  Whatever module-level state the library keeps - including memos this harness does not know
+    how to clear - is then filled by a different history than in the warm run, so a history-dependent outcome
+    shows up as a difference without the harness having to know where the state lives."""
+    import json
+    import os
+    import subprocess
+    import sys
+    import tempfile
+
+    fd, path = tempfile.mkstemp(prefix="yvc08-", suffix=".json")
+    os.close(fd)
+    try:
+        with open(path, "w") as f:
+            json.dump(all_logs, f)
+        r = subprocess.run([sys.executable, "-m", "yv.props.c08", path], capture_output=True, text=True, timeout=1800, env=dict(os.environ))
+        try:
+            res = json.loads(r.stdout.strip().splitlines()[-1])
+        except Exception:
+            ctx.crash = "fresh-process replay produced no result: " + (r.stdout[-300:] + r.stderr[-600:])
+            return
+        ctx.count("fresh_process_replayed", res["replayed"])
+        for m in res["mismatches"][:20]:
+            ctx.fail("history_dependent_outcome", {"program": m["pid"], "step": m["step"], "record": m["record"], "operands": m["births"], "order": "reversed, fresh process", "op": _as_op(m.get("origins") or {})},
+                     f"step {m['step']} {m['record']['op']}: warm {str(m['warm'])[:200]} != fresh-process reversed replay {str(m['cold'])[:200]}", fields=m.get("fields", []),
+                     _diff=[tuple(x) for x in m.get("diff", [])], warm=m["warm"], cold=m["cold"])
+    finally:
+        os.unlink(path)
+
+
+def _fresh_main(path):
+    import json
+
+    all_logs = json.load(open(path))
+    mismatches, n = [], 0
+    for pid, log in reversed(all_logs):
+        for si in range(len(log) - 1, -1, -1):
+            step, births, warm, origins = log[si]
+            if step["op"] in ("cache_info", "cache_clear", "cache_configure"):
+                continue
+            operands = {k: twin_from_slots(tuple(b)) for k, b in births.items()}
+            cold = json.loads(json.dumps(outcome_of(execute(step, operands))))
+            n += 1
+            if cold != warm:
+                d = []
+                if step["op"] == "readall" and cold[0] == "val" and warm[0] == "val":
+                    wd, cd = dict(map(tuple, warm[1])), dict(map(tuple, cold[1]))
+                    d = [(k, wd.get(k), cd.get(k)) for k in wd if wd.get(k) != cd.get(k)]
+                elif step["op"] == "read":
+                    d = [(step["a"], warm[1] if warm[0] == "val" else warm, cold[1] if cold[0] == "val" else cold)]
+                mismatches.append({"pid": pid, "step": si, "record": step, "births": births, "warm": warm, "cold": cold, "diff": d, "fields": [x[0] for x in d], "origins": origins})
+    print(json.dumps({"replayed": n, "mismatches": mismatches[:200]}))
 
 
 def run_repo_tests(ctx):
@@ -539,3 +603,9 @@ def finalize(merged, results, tier):
     if c.get("lru_evictions_observed", 0) == 0:
         unmet.append("no LRU eviction was observed")
     return unmet, {}
+
+
+if __name__ == "__main__":
+    import sys as _sys
+
+    _fresh_main(_sys.argv[1])
